@@ -30,6 +30,9 @@ pub struct Case {
     pub nodes: u8,
     pub hub: bool,
     pub ops: Vec<Op>,
+    /// router mode on the Ethernet dissector (no claims): nothing is learned, unknown destinations are dropped
+    #[serde(default)]
+    pub router: bool,
 }
 
 fn macs(i: u8) -> [u8; 6] {
@@ -50,7 +53,7 @@ pub fn run_case(ctx: &Ctx, c: &Case) -> Vec<Viol> {
     for _ in 0..n {
         let mut cfg = base_config();
         cfg.auto_claim = false;
-        cfg.mode = if c.hub { Mode::Hub } else { Mode::Switch };
+        cfg.mode = if c.router { Mode::Router } else if c.hub { Mode::Hub } else { Mode::Switch };
         cfg.switch_timeout = SWITCH_TIMEOUT;
         sim.add_node(&cfg, false);
     }
@@ -114,7 +117,16 @@ pub fn run_case(ctx: &Ctx, c: &Case) -> Vec<Viol> {
                 let peers: BTreeSet<usize> = (0..n).filter(|x| *x != at && alive[*x]).collect();
                 let dkey = key(v, macs(dst));
                 let now = sim.now;
-                if c.hub {
+                if c.router {
+                    if !recipients.is_empty() {
+                        out.push(Viol::new(
+                            "router-recipients-depend-on-traffic",
+                            format!("step {} {:?}: router mode without claims sent a frame to {:?} (it must learn nothing and drop unknown destinations)", si, op, recipients),
+                            cj(),
+                        ));
+                        return out;
+                    }
+                } else if c.hub {
                     if recipients != peers {
                         out.push(Viol::new(
                             "hub-recipients-depend-on-traffic",
@@ -278,21 +290,21 @@ pub fn run(ctx: &Ctx) {
             i /= na;
         }
         let hub = false;
-        let c = Case { nodes: 3, hub, ops };
+        let c = Case { nodes: 3, hub, ops, router: false };
         let v = run_case(ctx, &c);
         ctx.report(v);
     });
     ctx.subspace(&format!("switch mode: all sequences of length {} over a 10-op alphabet on 3 nodes", depth), total, true);
     let n: u32 = ctx.tier.pick(2_000, 20_000);
-    ctx.proptest("pt-learning", n, || (3u8..=4, proptest::bool::weighted(0.2), proptest::collection::vec(op_strategy(), 1..300)), |(nodes, hub, ops)| {
-        let c = Case { nodes: *nodes, hub: *hub, ops: ops.clone() };
+    ctx.proptest("pt-learning", n, || (3u8..=4, 0u8..10, proptest::collection::vec(op_strategy(), 1..300)), |(nodes, mode, ops)| {
+        let c = Case { nodes: *nodes, hub: *mode == 8, ops: ops.clone(), router: *mode == 9 };
         let v = run_case(ctx, &c);
         if ops.len() < 7 {
             ctx.sample("frame-sequence", || serde_json::to_value(&c).unwrap());
         }
         v
     });
-    ctx.subspace("proptest: frame sequences up to 300 on 3-4 nodes (switch, 20% hub)", n as u64, false);
+    ctx.subspace("proptest: frame sequences up to 300 on 3-4 nodes (80% switch, 10% hub, 10% router)", n as u64, false);
 }
 
 pub fn replay(ctx: &Ctx, case: &Value) {
